@@ -85,7 +85,7 @@ def _ecdf_joint(P, pts):
     return np.array([np.mean((P[:, 0] <= a) & (P[:, 1] <= b)) for a, b in pts])
 
 
-def _stat_checks(r, cop, out, sig, case, fam, th, band_margin, band_tau, band_joint, mode):
+def _stat_checks(r, cop, out, sig, case, fam, th, band_margin, band_tau, band_joint, mode, sub_idx=None):
     from mc.ref.archimedean import Ref
     from mc.ref.kendall import tau_b
     n = len(out)
@@ -98,7 +98,10 @@ def _stat_checks(r, cop, out, sig, case, fam, th, band_margin, band_tau, band_jo
     if dm > band_margin:
         r.violation(f'{sig}:{mode}:margin', f'{fam} theta={th}: a margin of the sample is {dm:.4f} from uniform '
                     f'(band {band_margin:.4f})', case=case)
-    sub = out if n <= 4096 else out[np.linspace(0, n - 1, 4096).astype(int)]
+    if sub_idx is not None:
+        sub = out[sub_idx]          # a product sub-lattice (a strided 1-D subsample of a grid would be structured)
+    else:
+        sub = out if n <= 4096 else out[np.linspace(0, n - 1, 4096).astype(int)]
     t = tau_b(sub[:, 0], sub[:, 1])
     tm = float(Ref(fam, th).tau())
     r['extra'][f'max_{mode}_tau_dev_x1000'] = abs(t - tm) * 1000
@@ -188,7 +191,12 @@ def run_case(case):
             r.violation(f'{sig}:second-column', f'{fam} theta={th}: second column is not the scripted v', case=case)
             return r
         _bracket_rows(r, ref, out, answers[0], answers[1], sig, case, fam, th, limit=60)
-        _stat_checks(r, cop, out, sig, case, fam, th, BAND_MARGIN / k, BAND_TAU, BAND_JOINT, 'script')
+        sub_idx = None
+        if k > 64:
+            step = k // 64
+            ii = np.arange(0, k, step)
+            sub_idx = (ii[:, None] * k + ii[None, :]).ravel()
+        _stat_checks(r, cop, out, sig, case, fam, th, BAND_MARGIN / k, BAND_TAU, BAND_JOINT, 'script', sub_idx=sub_idx)
         r['sample'] = {'mode': mode, 'family': fam, 'theta': th, 'lattice': [k, k], 'first_rows': out[:2].tolist()}
         return r
 
